@@ -28,6 +28,7 @@ func genATCase(r *Rng, w *ATWorld, id string, o ATGenOpts) *ATCase {
 		}
 		taken[k] = true
 	}
+	o.Existing = c.Rows
 	nLocal := 1 + r.Intn(3)
 	for i := 0; i < nLocal; i++ {
 		l := ATLocalTx{}
@@ -83,7 +84,7 @@ func runC01(c *Ctx) {
 	for i := 0; i < n+len(bigs); i++ {
 		r := rng.Fork()
 		cid := fmt.Sprintf("c01-%d", i)
-		o := ATGenOpts{AllowFindings: r.Chance(25), NullableVals: r.Chance(50), BigInts: r.Chance(15), ContinueOnError: r.Chance(40)}
+		o := ATGenOpts{AllowFindings: r.Chance(25), NullableVals: r.Chance(50), BigInts: r.Chance(15), ContinueOnError: r.Chance(40), Upserts: r.Chance(35)}
 		cs := genATCase(r, w, cid, o)
 		if i >= n {
 			big := bigs[i-n]
